@@ -131,7 +131,7 @@ fn rand_ver(rng: &mut Rng) -> [u32; 4] {
 }
 
 fn rand_part(rng: &mut Rng) -> String {
-    match rng.below(14) {
+    match rng.below(15) {
         0 => String::new(),
         1 => "4294967296".into(),
         2 => "4294967295".into(),
@@ -144,6 +144,7 @@ fn rand_part(rng: &mut Rng) -> String {
         9 => "0000000000000000000000000000004294967295".into(),
         10 => format!("{}é", rng.below(10)),
         11 => "+".into(),
+        12 => crate::gal::boundary_text(rng, 64),
         _ => rand_comp(rng).to_string(),
     }
 }
